@@ -102,7 +102,7 @@ def thresholds(tier):
 def cases(tier, seed):
   import os
   n = int(os.environ.get("VERIF_C19_MODELS", "0") or 0) or N_MODELS[tier]   # debugging aid only
-  sweeps = [{"sweep": j, "idx": n + j, "seed": seed} for j in range(8 if tier == "quick" else 80)]
+  sweeps = [{"sweep": j, "idx": n + j, "seed": seed} for j in range(12 if tier == "quick" else 120)]
   return [{"idx": i, "seed": seed} for i in range(n)] + sweeps
 
 
@@ -115,7 +115,7 @@ def run_sweep(case, ctx):
   import qkeras
   from qkeras.qtools import run_qtools
   rnd = random.Random(case["seed"] * 104729 + case["sweep"])
-  kind = rnd.choice(["conv2d", "conv2d", "dw", "conv1d"])
+  kind = rnd.choice(["conv2d", "conv2d", "dw", "conv1d", "conv2d_bn", "dw_bn"])      # *_bn: the folded conv + batch-norm classes
   k = rnd.choice([2, 3])
   cin, f = rnd.choice([1, 2, 3]), rnd.choice([1, 2, 4])
   size = rnd.choice([7, 8, 9, 12])
@@ -130,6 +130,14 @@ def run_sweep(case, ctx):
       inp = tf.keras.layers.Input((size, cin), name="in", batch_size=batch)
       layer = qkeras.QConv1D(f, k, strides=stride, padding=pad, dilation_rate=dil, name=name,
                              kernel_quantizer="quantized_bits(4,0,1)", bias_quantizer="quantized_bits(4,0,1)")
+    elif kind == "conv2d_bn":
+      inp = tf.keras.layers.Input((size, size, cin), name="in", batch_size=batch)
+      layer = qkeras.QConv2DBatchnorm(f, (k, k), strides=(stride, stride), padding=pad, dilation_rate=(dil, dil), name=name,
+                                      kernel_quantizer="quantized_bits(4,0,1)", bias_quantizer="quantized_bits(4,0,1)")
+    elif kind == "dw_bn":
+      inp = tf.keras.layers.Input((size, size, cin), name="in", batch_size=batch)
+      layer = qkeras.QDepthwiseConv2DBatchnorm((k, k), strides=(stride, stride), padding=pad, dilation_rate=(dil, dil), name=name,
+                                               depthwise_quantizer="quantized_bits(4,0,1)", bias_quantizer="quantized_bits(4,0,1)")
     elif kind == "conv2d":
       inp = tf.keras.layers.Input((size, size, cin), name="in", batch_size=batch)
       layer = qkeras.QConv2D(f, (k, k), strides=(stride, stride), padding=pad, dilation_rate=(dil, dil), name=name,
@@ -148,7 +156,7 @@ def run_sweep(case, ctx):
       continue
     out = [int(d) for d in model.output_shape[1:]]
     kvol = k if kind == "conv1d" else k * k
-    expect = int(np.prod(out[:-1])) * kvol * cin * (f if kind != "dw" else 1)
+    expect = int(np.prod(out[:-1])) * kvol * cin * (f if kind not in ("dw", "dw_bn") else 1)
     ok, q = ctx.call(dict(base, op="QTools"), lambda: _quiet_call(
         run_qtools.QTools, model, process="horowitz", source_quantizers=[qkeras.quantized_bits(8, 0, 1)],
         is_inference=False, weights_path=None, keras_quantizer="fp32", keras_accumulator="fp32", for_reference=False))
@@ -164,7 +172,7 @@ def run_sweep(case, ctx):
                     "Add over %r elements per sample (batch dimension %r): reports %r operations" % (out, batch, got_add),
                     {"batch": batch})
     if got is None or int(got) != expect:
-      ctx.violation(dict(base, kind="count_mismatch_in_geometry_sweep"),
+      ctx.violation(dict(base, kind="count_mismatch_in_geometry_sweep", reported="zero" if not got else "nonzero"),
                     "%s k=%d cin=%d f=%d input %d, strides %d padding %s dilation %d: reports %r operations, the loop nest performs %d" % (
                         kind, k, cin, f, size, stride, pad, dil, got, expect),
                     {"variants_before": variants[:5]})
